@@ -8,6 +8,11 @@
 //	    script line `search <corpus> <query> <all|top>` -> one `hit <corpus> <query> <kind> <docid>` pair per hit
 //	    (and, for `all`, one `matchset <corpus> <query> all` pair: the ids of the documents that matched)
 //
+//	(c) phase 2 (dstream.go): `normrt <lo> <hi>` (the norm decode chain on every field length of a range), `dsearch` (real
+//	    searches on adversarially built indexes — deletions, updates, merges, both ice versions, custom similarities — with
+//	    per-segment statistics recorded through a wrapping segment plugin -> `dhit` / `dmatchset` pairs) and `nscore`
+//	    (the same indexes under score mode "none")
+//
 // Floats travel as 16 hex digits of math.Float64bits; an explanation tree as {<value bits>;<message>;<child>…}.
 package main
 
